@@ -215,6 +215,23 @@ def history(draw, classes=('DynGraph', 'DynDiGraph'), removal=(True,), kinds=Non
                     t = rr[0] + draw(st.integers(0, 3))
                 e = t + draw(st.integers(1, 4)) if draw(st.booleans()) else None
                 op = ['add', ui, vi, t, e]
+        elif kind == 'gaprun':
+            # one more run after a gap on an existing pair (mostly the first pair): builds long timelines
+            keys = [k for k in model.keys() if model.latest_run(k) is not None]
+            if not keys:
+                a_, b_ = draw(st.integers(0, nn - 1)), draw(st.integers(0, nn - 1))
+                if a_ == b_ and not selfloops:
+                    b_ = (b_ + 1) % nn
+                op = ['add', a_, b_, base + draw(st.integers(0, horizon)), None]
+            else:
+                k = keys[0] if draw(st.integers(0, 3)) else keys[draw(st.integers(0, len(keys) - 1))]
+                u, v = model.ends(k)
+                ui, vi = dn_nodes.index(u), dn_nodes.index(v)
+                if cls == 'DynGraph' and draw(st.booleans()):
+                    ui, vi = vi, ui
+                t = model.latest_run(k)[1] + 2 + draw(st.integers(0, 1))
+                e = t + draw(st.integers(1, maxlen)) if draw(st.booleans()) else None
+                op = ['add', ui, vi, t, e]
         elif kind == 'missing_t':
             if draw(st.booleans()):
                 op = ['add_not', draw(st.integers(0, nn - 1)), draw(st.integers(0, nn - 1))]
@@ -228,16 +245,22 @@ def history(draw, classes=('DynGraph', 'DynDiGraph'), removal=(True,), kinds=Non
 
 
 def tiered(tier, **kw):
-    """history(**kw) in the quick tier; in the thorough tier half of the cases come from the same
-    strategy and half from a larger one (twice the calls, twice the instant range, up to 8 nodes,
-    longer spans), so that depth grows without thinning out the small, collision-rich cases."""
+    """history(**kw), mixed 5:1 with a long-timeline variant (2-3 nodes, 12-22 calls, mostly new runs
+    after a gap on the first pair: pairs with ten and more runs).  In the thorough tier a third of the
+    cases additionally come from a larger variant (twice the calls, twice the instant range, up to 8
+    nodes, longer spans), so that depth grows without thinning out the small, collision-rich cases."""
     small = history(**kw)
+    lt = dict(kw)
+    base_kinds = [k for k in (kw.get('kinds') or ADD_KINDS) if k in ('add', 'recip', 'node', 'reject', 'missing_t')] or ['add']
+    lt.update(max_ops=22, min_ops=12, uni=(2, 3), horizon=3, maxlen=min(3, kw.get('maxlen', 4)),
+              kinds=base_kinds[:3] + ['gaprun'] * 7)
+    long_tl = history(**lt)
     if tier != 'thorough':
-        return small
+        return st.one_of(small, small, small, small, small, long_tl)
     big = dict(kw)
     big['max_ops'] = min(28, 2 * kw.get('max_ops', 12))
     big['horizon'] = 2 * kw.get('horizon', 10)
     lo, hi = kw.get('uni', (3, 6))
     big['uni'] = (lo, min(8, hi + 2))
     big['maxlen'] = kw.get('maxlen', 4) + 2
-    return st.one_of(small, history(**big))
+    return st.one_of(small, small, small, history(**big), history(**big), long_tl)
